@@ -5,6 +5,7 @@ import (
 
 	"github.com/Oudwins/zog/conf"
 	p "github.com/Oudwins/zog/internals"
+	"github.com/Oudwins/zog/zconst"
 )
 
 // ! Passing Types through
@@ -82,7 +83,11 @@ func (i issueHelpers) SanitizeListAndCollect(l ZogIssueList) []string {
 
 // Collects a ZogIssueMap to be reused by Zog. This will "free" the issues in the map. This can help make Zog more performant by reusing issue structs.
 func (i *issueHelpers) CollectMap(issues ZogIssueMap) {
-	for _, list := range issues {
+	for key, list := range issues {
+		// the $first issue is also stored under its own path. It must only be freed once
+		if key == zconst.ISSUE_KEY_FIRST {
+			continue
+		}
 		i.CollectList(list)
 	}
 }
